@@ -225,4 +225,23 @@ def rowLoop (sy : Rat) : Nat → Rat → List Pending → List RRow → ROut
 /-- one row group starting at `y` -/
 def rowPass (sy y : Rat) (rows : List RRow) : ROut := rowLoop sy 0 y [] rows
 
+/-! ## the table level: row groups stacked in the table (allGroupsLayout / bodyGroupsLayout, one page) -/
+
+/-- pr.Max(x, y): `if x > y { x } else { y }` -/
+def prMax (x y : Rat) : Rat := if x > y then x else y
+
+/-- `group.Height = positionY - group.PositionY`, minus the last spacing when the group has rows -/
+def groupHeight (sy y : Rat) (o : ROut) : Rat := if o.rows.isEmpty then o.endY - y else o.endY - y - sy
+
+/-- the groups in layout order (header, bodies, footer — the footer is laid out first and translated,
+    which is the same position in exact arithmetic) from `y`: `positionY += group.Height + spacing`.
+    Returns the group positions and the final positionY. -/
+def stackGroups (sy : Rat) : Rat → List Rat → List Rat × Rat
+  | y, [] => ([], y)
+  | y, h :: r => (y :: (stackGroups sy (y + h + sy) r).1, (stackGroups sy (y + h + sy) r).2)
+
+/-- `table.Height = pr.Max(specified or 0, positionY - table.ContentBoxY())` -/
+def tableHeight (spec : Option Rat) (ty endY : Rat) : Rat :=
+  prMax (match spec with | some h => h | none => 0) (endY - ty)
+
 end WR.C13
